@@ -182,11 +182,78 @@ func (h *Runner) CheckCapture(c *common.Ctx, prop string, ops map[string]bool) {
 	}
 }
 
+// CheckRetention (C09): a sweep never removes the newest file, never a file at or above the high-water
+// mark when a backup client is configured, and never creates files.
+func (h *Runner) CheckRetention(c *common.Ctx) {
+	for i, ob := range h.Obs {
+		if ob.Op != "retention" || i == 0 || ob.Panic != "" {
+			continue
+		}
+		st := h.Steps[ob.Step]
+		before, after := h.Obs[i-1].LTX, ob.LTX
+		if len(before) == 0 {
+			continue
+		}
+		c.Evaluations++
+		c.Distinct(fmt.Sprintf("retention:%d:%v:%d", len(before), st.Backup, len(before)-len(after)))
+		have := map[string]bool{}
+		for _, f := range after {
+			have[f.Name] = true
+		}
+		was := map[string]bool{}
+		for _, f := range before {
+			was[f.Name] = true
+		}
+		for _, f := range after {
+			if !was[f.Name] {
+				c.Violate("C09:retention:new-file", "a retention sweep created "+f.Name, h.replay(ob.Step, "retention"))
+			}
+		}
+		newest := before[len(before)-1]
+		if !have[newest.Name] {
+			c.Violate("C09:retention:newest-removed", fmt.Sprintf("retention removed the newest transaction file %s", newest.Name), h.replay(ob.Step, "retention"))
+		}
+		for j, f := range before {
+			if have[f.Name] {
+				continue
+			}
+			if j < len(st.Ages) && !st.Ages[j] {
+				c.Violate("C09:retention:young-removed", fmt.Sprintf("retention removed %s although it is newer than the cut-off", f.Name), h.replay(ob.Step, "retention"))
+			}
+			if st.Backup && f.Max >= st.HWM {
+				c.Violate("C09:retention:unconfirmed-removed", fmt.Sprintf("retention removed %s (max TXID %d) although the backup high-water mark is %d", f.Name, f.Max, st.HWM), h.replay(ob.Step, "retention"))
+			}
+		}
+	}
+}
+
+// monotoneAges reports whether a retention step used ages that do not decrease along the directory.
+func monotoneAges(a []bool) bool {
+	seenYoung := false
+	for _, old := range a {
+		if !old {
+			seenYoung = true
+		} else if seenYoung {
+			return false
+		}
+	}
+	return true
+}
+
 // CheckChain (C09): the LTX directory is one contiguous self-verifying chain ending at the position.
 func (h *Runner) CheckChain(c *common.Ctx) {
+	gapAllowed := false
 	for _, ob := range h.Obs {
 		if ob.Panic != "" || len(ob.Exits) > 0 {
 			return
+		}
+		if ob.Op == "retention" {
+			st := h.Steps[ob.Step]
+			// with ages that decrease along the directory, or a high-water mark inside the old prefix,
+			// the sweep may legitimately leave a gap (the stream then falls back to a snapshot)
+			if !monotoneAges(st.Ages) {
+				gapAllowed = true
+			}
 		}
 		if len(ob.LTX) == 0 {
 			if ob.TXID != 0 {
@@ -202,7 +269,7 @@ func (h *Runner) CheckChain(c *common.Ctx) {
 				c.Violate("C09:invalid-file", fmt.Sprintf("step %d: %s fails its integrity check: %s", ob.Step, f.Name, f.Err), h.replay(ob.Step, "chain"))
 				return
 			}
-			if i > 0 {
+			if i > 0 && !gapAllowed {
 				p := ob.LTX[i-1]
 				if f.Min != p.Max+1 || f.Pre != p.Post {
 					c.Violate("C09:gap", fmt.Sprintf("step %d: %s does not continue %s (min %d after max %d, pre %016x after post %016x)", ob.Step, f.Name, p.Name, f.Min, p.Max, f.Pre, p.Post), h.replay(ob.Step, "chain"))
@@ -256,7 +323,18 @@ func (h *Runner) CoqCase() string {
 		for range ob.LTX {
 			n++
 		}
-		s += fmt.Sprintf("[%d;%d;%d;%d;%d;%d]", code, ob.TXID, ob.Chk, ob.PageN, mode, n)
+		s += fmt.Sprintf("[%d;%d;%d;%d;%d;%d", code, ob.TXID, ob.Chk, ob.PageN, mode, n)
+		if n > 0 {
+			f := ob.LTX[n-1]
+			s += fmt.Sprintf(";%d;%d;%d;%d;%d", f.Min, f.Max, f.Pre, f.Post, f.Commit)
+			for _, pg := range f.Pgnos {
+				s += fmt.Sprintf(";%d", pg)
+			}
+			for _, pg := range f.Pgnos {
+				s += fmt.Sprintf(";%d", lfs.PageChecksum(pg, f.Pages[pg]))
+			}
+		}
+		s += "]"
 	}
 	return s + "])"
 }
